@@ -6,6 +6,7 @@ import MpVerif.C10.Model
   class C                   ↦ `class C <classify C> <documented C> <candidate C>`
   table                     ↦ one `row FIRST LAST <description>` line per pre-registered entry, then `end-table`
   doctable                  ↦ the hand-written documented table, same format
+  extras CODE NOBJ FEASRELAX ORIGOBJ KAPPA RAYP RAYD IIS ↦ `extras … | <Extras>`
   report CODE NOBJ PR DU NALT STUB ↦ `report CODE NOBJ PR DU NALT STUB | <Report>`
 -/
 open MpVerif.C10 MpVerif.Gen.Status
@@ -45,6 +46,13 @@ def handle (out : IO.FS.Stream) (ws : List String) : IO Unit := do
       let a : Answer := { code := c, nObj := n, hasPrimal := p, hasDual := d, nAlt := k, solStub := st }
       out.putStrLn s!"report {c} {n} {b2s p} {b2s d} {k} {b2s st} | {(report a).toStr}"
     | _, _, _, _, _, _ => out.putStrLn "bad-op"
+  | ["extras", c, n, fr, og, ka, rp, rd, ii] =>
+    match c.toInt?, n.toNat?, parseBool fr, parseBool og, parseBool ka, parseBool rp, parseBool rd, parseBool ii with
+    | some c, some n, some fr, some og, some ka, some rp, some rd, some ii =>
+      let a : Answer := { code := c, nObj := n, hasPrimal := true, hasDual := true, feasrelax := fr, origObj := og,
+                          kappaOpt := ka, rayPrimalOpt := rp, rayDualOpt := rd, iisOpt := ii }
+      out.putStrLn s!"extras {c} {n} {b2s fr} {b2s og} {b2s ka} {b2s rp} {b2s rd} {b2s ii} | {(extras a).toStr}"
+    | _, _, _, _, _, _, _, _ => out.putStrLn "bad-op"
   | _ => out.putStrLn "bad-op"
 
 partial def loop (h : IO.FS.Stream) (out : IO.FS.Stream) : IO Unit := do
